@@ -401,7 +401,7 @@ def assetDecimals (w : World) (a : Asset) : M Nat :=
 /-- `execute_create_pair` + pair `instantiate` + LP-token instantiation + both replies.
 `np`, `nl` are the addresses the chain allocates to the new pair and its LP token. -/
 def facCreatePair (w : World) (sender : Nat) (a0 a1 : Asset) (req : Requirements) (comm : Option Nat)
-    (np nl : Nat) : M World :=
+    (lpDec : Option Nat) (np nl : Nat) : M World :=
   if sender ≠ w.owner then .error .unauthorized
   else if a0 = a1 then .error .err
   else if (match comm with | some c => decide (E < c) | none => false) then .error .err
@@ -412,10 +412,12 @@ def facCreatePair (w : World) (sender : Nat) (a0 a1 : Asset) (req : Requirements
     if (regLookup key w.registry).isSome then .error .err
     -- the instantiation sub-messages use the configured code ids: anything but the real pair / cw20 code fails
     else if w.pairCode ≠ w.envPairCode ∨ w.tokenCode ≠ w.envTokenCode then .error .err
+    -- the LP token is instantiated with `lp_token_decimals.unwrap_or(6)`; cw20-base refuses more than 18
+    else if (match lpDec with | some d => decide (18 < d) | none => false) then .error .err
     else
       let c := comm.getD defaultCommission
       let P : PairSt := { a0 := a0, a1 := a1, d0 := d0, d1 := d1, lp := nl, comm := c, req := req, factory := w.facAddr }
-      let T : Token := { bal := fun _ => 0, allow := fun _ _ => none, supply := 0, minter := some np, decimals := 6 }
+      let T : Token := { bal := fun _ => 0, allow := fun _ _ => none, supply := 0, minter := some np, decimals := lpDec.getD 6 }
       let R : Record := { a0 := a0, a1 := a1, pair := np, lp := nl, d0 := d0, d1 := d1, req := req, comm := c }
       .ok { w with
         pair := fun a => if a = np then some P else w.pair a
@@ -482,7 +484,7 @@ def facMigratePair (w : World) (sender p : Nat) (codeId : Option Nat) : M World 
 
 inductive FacMsg
   | updateConfig (newOwner tokenCode pairCode : Option Nat)
-  | createPair (a0 a1 : Asset) (req : Requirements) (comm : Option Nat) (np nl : Nat)
+  | createPair (a0 a1 : Asset) (req : Requirements) (comm : Option Nat) (lpDec : Option Nat) (np nl : Nat)
   | addDecimals (denom decimals : Nat)
   | migratePair (p : Nat) (codeId : Option Nat)
   deriving Repr, Inhabited
@@ -491,7 +493,7 @@ def facExec (w : World) (sender : Nat) (funds : List (Nat × Nat)) (m : FacMsg) 
   let w0 ← attach w sender w.facAddr funds
   match m with
   | .updateConfig o tc pc => facUpdateConfig w0 sender o tc pc
-  | .createPair a0 a1 req comm np nl => facCreatePair w0 sender a0 a1 req comm np nl
+  | .createPair a0 a1 req comm lpDec np nl => facCreatePair w0 sender a0 a1 req comm lpDec np nl
   | .addDecimals d k => facAddDecimals w0 sender d k
   | .migratePair p c => facMigratePair w0 sender p c
 
